@@ -429,3 +429,208 @@ func HasDelegation(l List) bool {
 	}
 	return false
 }
+
+// ---- INJECT family (C12): one unsupported construct at every statement position
+
+var injectKinds = []*Kind{
+	{Name: "XGoto", EventFirst: true, Print: func(p *Printer, s *Stmt) {
+		a := p.ID()
+		p.W("if c.B(%d) {", a)
+		p.W("\tgoto L%d", a)
+		p.W("}")
+		p.W("c.E(%d)", p.ID())
+		p.W("L%d:", a)
+		p.W("c.E(%d)", p.ID())
+	}},
+	{Name: "XGotoY", Yields: true, EventFirst: true, Print: func(p *Printer, s *Stmt) {
+		a := p.ID()
+		p.W("if c.B(%d) {", a)
+		p.W("\tgoto L%d", a)
+		p.W("}")
+		p.W("%s", yieldStmt(p))
+		p.W("L%d:", a)
+		p.W("c.E(%d)", p.ID())
+	}},
+	{Name: "XLblBrk", Arity: 1, Loop: true, EventFirst: true, Print: func(p *Printer, s *Stmt) {
+		a := p.ID()
+		p.W("L%d:", a)
+		p.W("for c.B(%d) {", a)
+		p.In()
+		p.W("for c.B(%d) {", p.ID())
+		p.Blk(s.Ch[0])
+		p.W("\tbreak L%d", a)
+		p.W("}")
+		p.W("c.E(%d)", p.ID())
+		p.Out()
+		p.W("}")
+	}},
+	{Name: "XLblCont", Arity: 1, Loop: true, EventFirst: true, Print: func(p *Printer, s *Stmt) {
+		a := p.ID()
+		p.W("L%d:", a)
+		p.W("for c.B(%d) {", a)
+		p.In()
+		p.W("for c.B(%d) {", p.ID())
+		p.Blk(s.Ch[0])
+		p.W("\tcontinue L%d", a)
+		p.W("}")
+		p.W("c.E(%d)", p.ID())
+		p.Out()
+		p.W("}")
+	}},
+	{Name: "XSelect", Arity: 1, Switch: true, EventFirst: false, Print: func(p *Printer, s *Stmt) {
+		p.W("select {")
+		p.W("default:")
+		p.Blk(s.Ch[0])
+		p.W("}")
+	}},
+	{Name: "XDefer", Print: func(p *Printer, s *Stmt) { p.W("defer c.E(%d)", p.ID()) }},
+	{Name: "XDeferIf", EventFirst: true, Print: func(p *Printer, s *Stmt) {
+		p.W("if c.B(%d) {", p.ID())
+		p.W("\tdefer c.E(%d)", p.ID())
+		p.W("}")
+	}},
+	{Name: "XDeferLoop", EventFirst: true, Print: func(p *Printer, s *Stmt) {
+		p.W("for i := 0; i < 2; i++ {")
+		p.W("\tdefer c.X(%d, i)", p.ID())
+		p.W("}")
+	}},
+	{Name: "XFall", Arity: 2, Switch: true, EventFirst: true, Print: func(p *Printer, s *Stmt) {
+		p.W("switch c.I(%d) {", p.ID())
+		p.W("case 0:")
+		p.Blk(s.Ch[0])
+		p.W("\tfallthrough")
+		p.W("default:")
+		p.Blk(s.Ch[1])
+		p.W("}")
+	}},
+	{Name: "XRangePtrArr", Yields: true, Print: func(p *Printer, s *Stmt) {
+		p.W("for _, v := range &[2]int{%d, %d} {", p.ID(), p.ID())
+		p.W("\t%s", p.Y("c.W("+itoa(p.ID())+", v)"))
+		p.W("}")
+	}},
+	{Name: "XIfInitY", Arity: 1, Yields: true, EventFirst: true, Print: func(p *Printer, s *Stmt) {
+		y := yieldStmt(p)
+		p.W("if %s; c.B(%d) {", y, p.ID())
+		p.Blk(s.Ch[0])
+		p.W("}")
+	}},
+	{Name: "XCloY", Yields: true, Print: func(p *Printer, s *Stmt) {
+		p.W("func() {")
+		p.W("\t%s", yieldStmt(p))
+		p.W("}()")
+	}},
+	// negative controls: the same constructs inside a nested plain closure must be accepted
+	{Name: "NGoto", EventFirst: true, Print: func(p *Printer, s *Stmt) {
+		a := p.ID()
+		p.W("func() {")
+		p.W("\tif c.B(%d) {", a)
+		p.W("\t\tgoto L%d", a)
+		p.W("\t}")
+		p.W("\tc.E(%d)", p.ID())
+		p.W("L%d:", a)
+		p.W("\tc.E(%d)", p.ID())
+		p.W("}()")
+	}},
+	{Name: "NLbl", EventFirst: true, Print: func(p *Printer, s *Stmt) {
+		a := p.ID()
+		p.W("func() {")
+		p.W("L%d:", a)
+		p.W("\tfor c.B(%d) {", a)
+		p.W("\t\tfor c.B(%d) {", p.ID())
+		p.W("\t\t\tif c.B(%d) {", p.ID())
+		p.W("\t\t\t\tcontinue L%d", a)
+		p.W("\t\t\t}")
+		p.W("\t\t\tbreak L%d", a)
+		p.W("\t\t}")
+		p.W("\t}")
+		p.W("}()")
+	}},
+	{Name: "NSelect", Print: func(p *Printer, s *Stmt) {
+		p.W("func() {")
+		p.W("\tselect {")
+		p.W("\tdefault:")
+		p.W("\t\tc.E(%d)", p.ID())
+		p.W("\t}")
+		p.W("}()")
+	}},
+	{Name: "NDefer", Print: func(p *Printer, s *Stmt) {
+		p.W("func() {")
+		p.W("\tdefer c.E(%d)", p.ID())
+		p.W("\tc.E(%d)", p.ID())
+		p.W("}()")
+	}},
+	{Name: "NFall", EventFirst: true, Print: func(p *Printer, s *Stmt) {
+		p.W("func() {")
+		p.W("\tswitch c.I(%d) {", p.ID())
+		p.W("\tcase 0:")
+		p.W("\t\tc.E(%d)", p.ID())
+		p.W("\t\tfallthrough")
+		p.W("\tdefault:")
+		p.W("\t\tc.E(%d)", p.ID())
+		p.W("\t}")
+		p.W("}()")
+	}},
+	{Name: "NRangePtrArr", Print: func(p *Printer, s *Stmt) {
+		p.W("func() {")
+		p.W("\tfor _, v := range &[2]int{%d, %d} {", p.ID(), p.ID())
+		p.W("\t\tc.X(%d, v)", p.ID())
+		p.W("\t}")
+		p.W("}()")
+	}},
+}
+
+func init() {
+	CFAll.Kinds = append(CFAll.Kinds, injectKinds...)
+	CFAll.byN = nil
+}
+
+// InjectStmts: the statements that are inserted (compounds get minimal bodies).
+func InjectStmts() []*Stmt {
+	y, e := &Stmt{K: "Y"}, &Stmt{K: "E"}
+	return []*Stmt{
+		{K: "XGoto"}, {K: "XGotoY"},
+		{K: "XLblBrk", Ch: [][]*Stmt{{y}}}, {K: "XLblCont", Ch: [][]*Stmt{{y}}},
+		{K: "XLblBrk", Ch: [][]*Stmt{{e}}},
+		{K: "XSelect", Ch: [][]*Stmt{{y}}}, {K: "XSelect", Ch: [][]*Stmt{{e}}},
+		{K: "XDefer"}, {K: "XDeferIf"}, {K: "XDeferLoop"},
+		{K: "XFall", Ch: [][]*Stmt{{y}, {e}}}, {K: "XFall", Ch: [][]*Stmt{{e}, {y}}},
+		{K: "XRangePtrArr"},
+		{K: "XIfInitY", Ch: [][]*Stmt{{e}}}, {K: "XIfInitY", Ch: [][]*Stmt{{y}}},
+		{K: "XCloY"},
+		{K: "NGoto"}, {K: "NLbl"}, {K: "NSelect"}, {K: "NDefer"}, {K: "NFall"}, {K: "NRangePtrArr"},
+	}
+}
+
+// Insertions returns every program obtained from base by inserting x at one statement position
+// (any list, any index not after a jump).
+func Insertions(f *Family, base List, x *Stmt) []List {
+	var out []List
+	var walk func(cur List, rebuild func(List) List)
+	walk = func(cur List, rebuild func(List) List) {
+		for i := 0; i <= len(cur); i++ {
+			if i > 0 && f.Kind(cur[i-1].K).Jump {
+				break
+			}
+			nl := make(List, 0, len(cur)+1)
+			nl = append(nl, cur[:i]...)
+			nl = append(nl, x)
+			nl = append(nl, cur[i:]...)
+			out = append(out, rebuild(nl))
+		}
+		for i, s := range cur {
+			for ci, ch := range s.Ch {
+				i, ci, s := i, ci, s
+				walk(ch, func(nl List) List {
+					ns := &Stmt{K: s.K, Ch: make([][]*Stmt, len(s.Ch))}
+					copy(ns.Ch, s.Ch)
+					ns.Ch[ci] = nl
+					nc := append(List{}, cur...)
+					nc[i] = ns
+					return rebuild(nc)
+				})
+			}
+		}
+	}
+	walk(base, func(l List) List { return l })
+	return out
+}
